@@ -131,7 +131,7 @@ def run(ctx):
     q = not ctx.thorough
     mcs = ["VerQ", "PktQ"] if q else ["VerT", "PktT", "VerQ", "PktQ"]
     gens = [("GenVerQ", None, None), ("GenPktQ", None, None)] if q else [("GenVer", None, None), ("GenPktT", None, None)]
-    gens.append(("Sim", ctx.pick(60, 1500), 40))
+    gens.append(("Sim", ctx.pick(60, 3000), 40))
 
     def mc(name):
         return lambda: ctx.tlc_must_hold("SSHPrelude_MC", cfg="SSHPrelude_%s.cfg" % name, timeout=2400, workers=ctx.pick(4, 12))
@@ -162,7 +162,7 @@ def run(ctx):
     th.start()
     # meanwhile: the long sessions (go_test is not re-entrant: one at a time, in this thread)
     try:
-        res_l = ctx.go_test("x07", "TestLong$", env={"VERIF_TRACE_OUT": tp, "VERIF_X07_LONG": ctx.pick(60, 1500)}, timeout=1500)
+        res_l = ctx.go_test("x07", "TestLong$", env={"VERIF_TRACE_OUT": tp, "VERIF_X07_LONG": ctx.pick(60, 3000)}, timeout=1500)
     finally:
         th.join()
     if "err" in box:
